@@ -85,7 +85,7 @@ StateDiffs(e, o) ==
   \cup (IF <<e.h, e.t>> # <<o.h, o.t>> THEN {<<"conf:clock", "">>} ELSE {})
 
 \* kinds of actions the hub specification predicts
-Modelled(a) == a.k \in {"Begin", "End", "Send", "Cancel", "ReqBatch", "Claim", "Confirm", "SetKeys"}
+Modelled(a) == a.k \in {"Begin", "End", "Send", "BulkSend", "Cancel", "ReqBatch", "Claim", "Confirm", "SetKeys"}
 
 \* the pre-state handed to Step: for "End" the staking module's validator update has already happened
 PreFor(a, pre, post) == IF a.k = "End" THEN [pre EXCEPT !.stk = post.stk, !.tot = post.tot] ELSE pre
